@@ -2861,7 +2861,8 @@ func (lv *leafValue) lastUpdateBetween(hLog appendable.Appendable, initialTs, fi
 	hOff := lv.hOff
 	skippedUpdates := uint64(0)
 
-	for i := uint64(0); i < lv.hCount; i++ {
+	// hCount is the number of updates stored in the history log (not the number of records)
+	for skippedUpdates < lv.hCount {
 		r := appendable.NewReaderFrom(hLog, hOff, DefaultMaxNodeSize)
 
 		hc, err := r.ReadUint32()
